@@ -178,9 +178,9 @@ func c12Dump(f *xl.File, taint bool) (impl, abs string) {
 // ---------- workbooks ----------
 
 type c12Sheet struct {
-	name, path       string
-	num, str, rich   string // cells: numeric, shared string, rich text ("" = none)
-	hasStr           bool
+	name, path     string
+	num, str, rich string // cells: numeric, shared string, rich text ("" = none)
+	hasStr         bool
 }
 
 type c12Book struct {
@@ -560,7 +560,9 @@ func (c *c12Ctx) exec(tok string) (op string, pre string, panicked bool) {
 		op = "setnum " + part
 	case "setstr":
 		c.nWrite++
-		panicked = c12Guard(func() { f.SetCellStr(sh.name, fmt.Sprintf("K%d", 900+c.nWrite), fmt.Sprintf("new <string> %d ", c.nWrite)) })
+		panicked = c12Guard(func() {
+			f.SetCellStr(sh.name, fmt.Sprintf("K%d", 900+c.nWrite), fmt.Sprintf("new <string> %d ", c.nWrite))
+		})
 		c.dirty = true
 		op = "setstr " + part
 	case "rich":
@@ -758,12 +760,13 @@ func c12Entries(data []byte) (string, int) {
 }
 
 type c12Result struct {
-	status  string   // ok | ERR | OPTERR | PANIC | NOFILE
-	abs     []string // abstraction after each step (open, ops...), SST masked when tainted
-	taint   bool
-	spilled int
-	sstOut  []c12Blob
-	left    int // files left in TMPDIR at the end
+	status   string   // ok | ERR | OPTERR | PANIC | NOFILE
+	abs      []string // abstraction after each step (open, ops...), SST masked when tainted
+	taint    bool
+	spilled  int
+	sstOut   []c12Blob
+	left     int    // files left in TMPDIR at the end
+	savedObs string // observation of the reopened file of the last save of the history
 }
 
 // c12Transcript runs one case with transcript lines. refSST: per-save SST serialisation of the reference run.
@@ -834,6 +837,16 @@ func c12Transcript(r *Run, bk *c12Book, xmlL, sizeL int64, hist []string, refSST
 	}
 	res.taint = c.taint
 	res.sstOut = c.sstOut
+	if c.lastBuf != nil {
+		// the file written by the history's own last save (parts that were never touched are
+		// written from their temp files), reopened under default limits
+		if g, _ := c12Open(c.lastBuf, 0, 0); g != nil {
+			res.savedObs = c12Observe(g)
+			g.Close()
+		} else {
+			res.savedObs = "REOPEN-FAILED"
+		}
+	}
 	c12CleanTmp()
 	return res
 }
@@ -1104,6 +1117,10 @@ func c12Case(r *Run, bk *c12Book, xmlL, sizeL int64, hist []string, ref *c12Ref,
 			}
 		}
 	}
+	// oracle 3b: the file written by the history's last save, reopened, observed
+	if res.savedObs != ref.res.savedObs {
+		r.Fail("saved-file-differs:first-touch-"+ft, fmt.Sprintf("the file saved by the history reads differently from the one saved under default limits (book %s, limits %d/%d): %s", bk.id, xmlL, sizeL, c12FirstDiff([]string{"saved:" + res.savedObs}, []string{"saved:" + ref.res.savedObs})), 0, header)
+	}
 	// oracle 4: observations
 	obs0, left0, _ := c12Plain(bk, xmlL, sizeL, hist, 0)
 	if left0 != 0 {
@@ -1239,7 +1256,7 @@ func runC12(r *Run, rng *Rng, replay string) {
 	thorough := r.Tier == "thorough"
 	nGen, nLim, deepEvery := 22, 4, 4
 	if thorough {
-		nGen, nLim, deepEvery = 300, 10, 2
+		nGen, nLim, deepEvery = 160, 8, 3
 	}
 	var ids []string
 	// deterministic witnesses first
